@@ -490,6 +490,21 @@ def gen_mincost_cheapfirst(rng, general=False):
     return case
 
 
+def gen_mincost_negative_tail(rng):
+    """the cheapest route starts dearer than a whole rival route and only wins through a negative arc at its end (no negative cycle):
+    labels beyond the sink's current label still have to be expanded"""
+    n = rng.randint(3, 5)
+    s, t = 0, n - 1
+    c = rng.randint(1, 4)
+    arcs = [[s, t, rng.randint(1, 3), c]]
+    for v in range(1, n - 1):
+        d = c + rng.randint(0, 3)
+        e = rng.randint(d - c + 1, d + 2)
+        arcs += [[s, v, rng.randint(1, 3), d], [v, t, rng.randint(1, 3), -e]]
+    rng.shuffle(arcs)
+    return {"n": n, "arcs": arcs, "s": s, "t": t, "labels": rng.choice(["int", "str"]), "demand": rng.randint(1, 4), "ns_max_iters": (2,)}
+
+
 def gen_mincost_longroute(rng):
     """a cheap route of 4-6 hops whose nodes are numbered against the scan order of the node set (sink 0, source highest), plus
     costlier shortcut arcs into its middle and end: Bellman-Ford needs one relaxation round per hop, and a node's distance keeps
